@@ -494,8 +494,6 @@ def replay(ck, path):
         for f, why in rows or []:
             print(f, "--", why)
         ck.evaluations = len(g["meta"]["functions"])
-    ck.nontriv(1)
-    ck.nontriv(2)
 
 
 def prebuild():
